@@ -8,9 +8,12 @@ _CHECK = None
 _BOUND = 1
 _CAP = None
 _DET_EVERY = 1
+_SEQ = 0
 
 
 def _unit(i):
+    global _SEQ
+    _SEQ += 1
     scn = _SCNS[i]
     bound = scn.features.get('_bound', _BOUND)
     st, viols = netmc.explore(scn, bound, _CHECK, cap=_CAP)
@@ -27,26 +30,37 @@ def _unit(i):
     for choices, v in viols:
         key = json.dumps(common.jsonable(v.get('features', {})), sort_keys=True)
         ndev = sum(1 for c in choices if c)
-        # keep, per violation class, the execution with the fewest deviations
-        if key in seen_sym and seen_sym[key][0] <= ndev:
-            seen_sym[key][3] += 1
-            continue
-        seen_sym[key] = [ndev, choices, v, (seen_sym[key][3] + 1) if key in seen_sym else 1]
-    for key, (ndev, choices, v, count) in seen_sym.items():
-        ok = True
-        kinds = []
-        for _ in range(2):
-            w = netmc.execute(scn, netmc.strip(choices))
-            kinds = sorted(set(k for (_i, k, _c, _m) in w.deviations()))
-            again = _CHECK(w) or []
-            if not any(json.dumps(common.jsonable(x.get('features', {})), sort_keys=True) == key for x in again):
-                ok = False
-        if ok:
-            v = dict(v)
-            v['instances'] = count
-            v['_dev_kinds'] = ''.join(kinds)
-            confirmed.append((netmc.strip(choices), v))
-        else:
+        # keep, per violation class, the executions with the fewest deviations -- up to three with DISTINCT
+        # deviation counts: state carried over inside a long-lived worker (e.g. a module-level object the SUT
+        # damaged in an earlier execution) can make a later, deviation-free execution show the same symptom;
+        # that one is the "smallest" but will not reproduce in a fresh process, the one that did the damage will
+        ent = seen_sym.setdefault(key, {'count': 0, 'cands': {}})
+        ent['count'] += 1
+        if ndev not in ent['cands'] and (len(ent['cands']) < 3 or ndev < max(ent['cands'])):
+            ent['cands'][ndev] = (choices, v)
+            if len(ent['cands']) > 3:
+                del ent['cands'][max(ent['cands'])]
+    for key, ent in seen_sym.items():
+        any_ok = False
+        for rank, ndev in enumerate(sorted(ent['cands'])):
+            choices, v = ent['cands'][ndev]
+            ok = True
+            kinds = []
+            for _ in range(2):
+                w = netmc.execute(scn, netmc.strip(choices))
+                kinds = sorted(set(k for (_i, k, _c, _m) in w.deviations()))
+                again = _CHECK(w) or []
+                if not any(json.dumps(common.jsonable(x.get('features', {})), sort_keys=True) == key for x in again):
+                    ok = False
+            if ok:
+                any_ok = True
+                v = dict(v)
+                v['instances'] = ent['count']
+                v['_dev_kinds'] = ''.join(kinds)
+                v['_class'] = key
+                v['_rank'] = rank
+                confirmed.append((netmc.strip(choices), v))
+        if not any_ok:
             unrepro += 1
     sample = None
     if a is not None and i % 7 == 0:
@@ -56,7 +70,7 @@ def _unit(i):
         'i': i, 'name': scn.name, 'executions': st.executions, 'choice_points': st.choice_points, 'turns': st.turns,
         'dev_by_kind': st.deviations_by_kind, 'traces': len(st.traces), 'no_q': st.no_quiescence,
         'capped': st.capped, 'det_ok': det_ok, 'confirmed': confirmed, 'unrepro': unrepro,
-        'max_points': st.max_points, 'sample': sample, 'bound': bound,
+        'max_points': st.max_points, 'sample': sample, 'bound': bound, 'pid': __import__('os').getpid(), 'seq': _SEQ,
     }
 
 
@@ -74,6 +88,8 @@ def run(prop, tier, scenarios, check, bound, describe, cap=None, rule='', assump
         for s in _SCNS:
             netmc.make_flags(s.flags_args, **s.flags_opts)
     dev = {}
+    hist = {}       # worker pid -> [(sequence number, scenario index)]: what each long-lived worker ran, in order
+    where = {}      # scenario index -> (pid, sequence number)
     traces = 0
     nondet = []
     unrepro = 0
@@ -95,6 +111,8 @@ def run(prop, tier, scenarios, check, bound, describe, cap=None, rule='', assump
         maxp = max(maxp, r['max_points'])
         if r['sample']:
             rep.sample(r['sample'])
+        hist.setdefault(r['pid'], []).append((r['seq'], r['i']))
+        where[r['i']] = (r['pid'], r['seq'])
         for choices, v in r['confirmed']:
             pending.append((r['i'], choices, v))
     # A violation must also reproduce in a FRESH process: workers are long-lived and run thousands of executions
@@ -102,22 +120,78 @@ def run(prop, tier, scenarios, check, bound, describe, cap=None, rule='', assump
     # fake -- or hide -- a failure.  A few candidates are re-executed from their recorded choices in a new
     # interpreter; if none of them fails there, nothing is reported (counted in the evidence instead).
     fresh_ok = fresh_bad = 0
-    n_cand = len(pending)
+    # group the candidates by (scenario, violation class); within a group they are alternatives (fewest deviations first)
+    groups = {}
+    for (i, choices, v) in pending:
+        groups.setdefault((i, v.get('_class')), []).append((v.get('_rank', 0), i, choices, v))
+    glist = [sorted(g, key=lambda t: t[0]) for _k, g in sorted(groups.items(), key=lambda kv: (kv[0][0], str(kv[0][1])))]
+    n_cand = len(glist)
     kept = []
     from concurrent.futures import ThreadPoolExecutor
-    with ThreadPoolExecutor(max_workers=6) as tp:
-        verdicts = list(tp.map(lambda t: _fresh_confirm(check, tier, _SCNS[t[0]].name, t[1], t[2]), pending[:12]))
-    for k, (i, choices, v) in enumerate(pending):
-        if k >= 12:
-            # beyond the first dozen: kept iff the fresh process confirmed at least one of the dozen
-            if fresh_ok:
-                kept.append((i, choices, v))
-            continue
-        if verdicts[k]:
+    LIMIT = 36
+    head = glist[:LIMIT]
+    winner = [None] * len(head)
+    for rnd in range(3):
+        todo = [gi for gi, g in enumerate(head) if winner[gi] is None and rnd < len(g)]
+        if not todo:
+            break
+        with ThreadPoolExecutor(max_workers=6) as tp:
+            verdicts = list(tp.map(lambda gi: _fresh_confirm(check, tier, _SCNS[head[gi][rnd][1]].name, head[gi][rnd][2], head[gi][rnd][3]), todo))
+        for gi, ok in zip(todo, verdicts):
+            if ok:
+                winner[gi] = head[gi][rnd]
+    # what is left may need the HISTORY of executions before it (a module-level object of the SUT damaged by an
+    # earlier execution of the same scenario): explore that scenario once more, from scratch, in a new interpreter
+    left = [gi for gi in range(len(head)) if winner[gi] is None][:12]
+    if left:
+        def _again(gi):
+            _r, i, choices, v = head[gi][0]
+            b = _SCNS[i].features.get('_bound', bound)
+            return _fresh_confirm(check, tier, _SCNS[i].name, choices, v, explore_bound=b)
+        with ThreadPoolExecutor(max_workers=6) as tp:
+            found = list(tp.map(_again, left))
+        for gi, ch in zip(left, found):
+            if ch is not None:
+                _r, i, _c, v = head[gi][0]
+                v = dict(v)
+                v['detail'] = {'needs_history': 'shows when the scenario is explored from a fresh interpreter (executions before this one '
+                                                'changed process-wide state of the proxy); choices = first execution showing it',
+                               'detail': v.get('detail')}
+                v.pop('_dev_kinds', None)
+                winner[gi] = (0, i, ch, v)
+    # ... or the history of OTHER scenarios the same worker ran before (state the proxy keeps across connections:
+    # caches, shared default objects): replay, in a new interpreter, what that worker had run up to then, in its
+    # order, then explore the scenario.  A violation that needs such a history is as real as any other -- in
+    # production the earlier connections are simply earlier connections of the same process.
+    left = [gi for gi in range(len(head)) if winner[gi] is None][:6]
+    if left:
+        def _with_history(gi):
+            _r, i, choices, v = head[gi][0]
+            pid, seq = where.get(i, (None, None))
+            before = [j for (sq, j) in sorted(hist.get(pid, [])) if sq < seq]
+            b = _SCNS[i].features.get('_bound', bound)
+            return _fresh_confirm(check, tier, _SCNS[i].name, choices, v, explore_bound=b, history=before, index=i, total=len(_SCNS))
+        with ThreadPoolExecutor(max_workers=6) as tp:
+            found = list(tp.map(_with_history, left))
+        for gi, ch in zip(left, found):
+            if ch is not None:
+                _r, i, _c, v = head[gi][0]
+                v = dict(v)
+                v['detail'] = {'needs_history': 'shows after the scenarios the same worker process had run before (state the proxy keeps '
+                                                'across connections); replay = those scenarios in order, then this one',
+                               'earlier_scenarios': ch.get('history_names', [])[-12:], 'detail': v.get('detail')}
+                v.pop('_dev_kinds', None)
+                winner[gi] = (0, i, ch['choices'], v)
+    for gi, g in enumerate(head):
+        if winner[gi] is not None:
             fresh_ok += 1
-            kept.append((i, choices, v))
+            kept.append(winner[gi][1:])
         else:
             fresh_bad += 1
+    for g in glist[LIMIT:]:
+        # beyond the limit: kept (first alternative) iff the fresh process confirmed at least one class
+        if fresh_ok:
+            kept.append(g[0][1:])
     rep.add(violation_candidates=n_cand, candidates_confirmed_in_a_fresh_process=fresh_ok,
             candidates_not_reproduced_in_a_fresh_process=fresh_bad)
     if fresh_bad:
@@ -155,14 +229,25 @@ def run(prop, tier, scenarios, check, bound, describe, cap=None, rule='', assump
     return rc
 
 
-def _fresh_confirm(check, tier, name, choices, v):
-    """Re-execute one recorded failure in a new interpreter; True iff the same symptom shows there."""
+def _fresh_confirm(check, tier, name, choices, v, explore_bound=None, history=None, index=None, total=None):
+    """Re-execute one recorded failure in a new interpreter; True iff the same symptom shows there.
+    With explore_bound: explore the whole scenario (<= bound deviations) in the new interpreter instead and return the
+    choice list of the first execution showing the symptom (or None) -- for failures that need the history of
+    executions before them (the SUT damaged a module-level object earlier in the same process)."""
     import os
     import subprocess
     import sys
     env = dict(os.environ)
-    env['VERIF_CONFIRM'] = json.dumps({'module': check.__module__, 'check': check.__name__, 'tier': tier, 'name': name,
-                                       'choices': list(choices), 'symptom': v['symptom']})
+    req = {'module': check.__module__, 'check': check.__name__, 'tier': tier, 'name': name,
+           'choices': list(choices), 'symptom': v['symptom'], 'explore_bound': explore_bound}
+    hpath = None
+    if history is not None:
+        import tempfile
+        fd, hpath = tempfile.mkstemp(prefix='history-', suffix='.json', dir=netmc.scratch_dir())
+        with os.fdopen(fd, 'w') as fh:
+            json.dump({'history': history, 'index': index, 'total': total}, fh)
+        req['history_file'] = hpath
+    env['VERIF_CONFIRM'] = json.dumps(req)
     env['PYTHONHASHSEED'] = '0'
     # one execution, alone in its process: 30 s of real time is ample (normally ~2 ms), and a candidate that
     # hangs or spins must not take minutes to say so again
@@ -171,7 +256,20 @@ def _fresh_confirm(check, tier, name, choices, v):
     try:
         p = subprocess.run([sys.executable, '-c', code], env=env, cwd=common.VERIF, capture_output=True, timeout=900)
     except subprocess.TimeoutExpired:
-        return True         # cannot tell: keep the candidate
+        return None if explore_bound is not None else True         # cannot tell: keep a plain candidate
+    if hpath:
+        try:
+            os.unlink(hpath)
+        except OSError:
+            pass
+    if explore_bound is not None:
+        if p.returncode != 0:
+            return None
+        for line in p.stdout.decode('utf-8', 'replace').splitlines():
+            if line.startswith('CHOICES '):
+                got = json.loads(line[8:])
+                return got if history is not None else got['choices']
+        return None
     if p.returncode not in (0, 3):
         return True         # the confirmation itself failed to run: keep the candidate
     return p.returncode == 0
@@ -203,6 +301,28 @@ def confirm_entry():
     if scn is None:
         return 4
     netmc.install()
+    if a.get('explore_bound') is not None:
+        names = []
+        if a.get('history_file'):
+            h = json.load(open(a['history_file']))
+            if len(coll) != h['total'] or coll[h['index']].name != a['name']:
+                return 4        # the collection is not the one the workers indexed
+            budget = 40000
+            for j in h['history']:
+                pj = coll[j]
+                bj = pj.features.get('_bound', a['explore_bound'])
+                if bj and budget > 0:
+                    stj, _v = netmc.explore(pj, bj, getattr(mod, a['check']), cap=2000)
+                    budget -= stj.executions
+                else:
+                    netmc.execute(pj, ())
+                names.append(pj.name)
+        _st, viols = netmc.explore(scn, a['explore_bound'], getattr(mod, a['check']))
+        for choices, x in viols:
+            if x.get('symptom') == a['symptom']:
+                print('CHOICES ' + json.dumps({'choices': list(netmc.strip(choices)), 'history_names': names[-12:]}))
+                return 0
+        return 3
     w = netmc.execute(scn, a['choices'])
     out = getattr(mod, a['check'])(w) or []
     return 0 if any(x.get('symptom') == a['symptom'] for x in out) else 3
